@@ -187,8 +187,13 @@ class C15(Prop):
             at_ = tp.get('at') or 'work'
             base_cfg = {'fire_count': tp['fire_count'], 'fire_period': '0'}
             if k == 'method_span':
+                extra = {}
+                if tp.get('route') == 'args' and tp.get('at') == 'last':
+                    # the same span asked for with an explicit stage (as a UI that always sends one would)
+                    extra = {STAGE: as_received('method_end')}
+                    out.cls('method_span_with_an_explicit_stage')
                 trig = build_trigger(tid, BASE, -1, dict(base_cfg, span='method', method_name=fi['name'],
-                                                         snapshot='no_collect'), [], [])
+                                                         snapshot='no_collect', **extra), [], [])
             elif k == 'line_span':
                 trig = build_trigger(tid, BASE, fi.get(at_, fi['work']), dict(base_cfg, span='line', snapshot='no_collect'), [], [])
             elif tp.get('route') == 'args' and k == 'method_capture':
